@@ -33,6 +33,8 @@ import (
 //             fmq      - a FairMQ device (control mode FAIRMQ: FairMQ state and event names), otherwise like sleep
 //             midstate - a FairMQ device that, once the executor has seen it IDLE, sits in an intermediate
 //                        FairMQ state ("BINDING") for ever and refuses every transition; obeys TERM/INT
+//             resetstuck - a FairMQ device whose RESET DEVICE fails by staying in DEVICE READY (not ok); the
+//                        roll-back INIT TASK to READY works; otherwise like fmq
 
 type occLog struct {
 	mu sync.Mutex
@@ -52,6 +54,7 @@ type occServer struct {
 	state    string
 	log      *occLog
 	nget     int
+	ntrans   int
 	stopping chan struct{}
 	beh      string
 	leave    chan int // exit code to leave with (-1: die by a signal)
@@ -92,11 +95,14 @@ func (s *occServer) Transition(ctx context.Context, r *pb.TransitionRequest) (*p
 	s.mu.Lock()
 	defer s.mu.Unlock()
 	t, known := occTransitions[r.GetTransitionEvent()]
-	if s.beh == "fmq" || s.beh == "midstate" {
+	if s.beh == "fmq" || s.beh == "midstate" || s.beh == "resetstuck" {
 		t, known = fmqTransitions[r.GetTransitionEvent()]
 	}
 	ok := known && (t[0] == "" || t[0] == s.state) && s.state != "INITIALIZING" && s.state != "BINDING"
 	if s.beh == "nodone" && r.GetTransitionEvent() == "EXIT" {
+		ok = false
+	}
+	if s.beh == "resetstuck" && r.GetTransitionEvent() == "RESET DEVICE" {
 		ok = false
 	}
 	if ok {
@@ -112,7 +118,10 @@ func (s *occServer) Transition(ctx context.Context, r *pb.TransitionRequest) (*p
 			}
 		}
 	}
-	s.log.emit(map[string]interface{}{"ev": "Occ", "rpc": "Transition", "event": r.GetTransitionEvent(), "ok": ok, "st": s.state})
+	s.ntrans++
+	if s.ntrans <= 200 { // a caller stuck in a loop must not flood the record
+		s.log.emit(map[string]interface{}{"ev": "Occ", "rpc": "Transition", "event": r.GetTransitionEvent(), "ok": ok, "st": s.state})
+	}
 	return &pb.TransitionReply{Trigger: pb.StateChangeTrigger_EXECUTOR, State: s.state, TransitionEvent: r.GetTransitionEvent(), Ok: ok}, nil
 }
 
@@ -152,7 +161,7 @@ func runFakeOcc(port int, logPath, beh, fifo string) int {
 	if beh == "stuck" {
 		srv.state = "INITIALIZING"
 	}
-	if beh == "fmq" || beh == "midstate" {
+	if beh == "fmq" || beh == "midstate" || beh == "resetstuck" {
 		srv.state = "IDLE"
 	}
 	lis, err := net.Listen("tcp", fmt.Sprintf("127.0.0.1:%d", port))
